@@ -24,6 +24,7 @@ func main() {
 	q := flag.Int("q", 1, "")
 	e2e := flag.Int("e2e", 0, "")
 	history := flag.Int("history", 0, "")
+	delay := flag.Int("delay", 50, "")
 	flag.Parse()
 	if *history > 0 {
 		// a long-lived process: earlier runs have used up packet identifiers, the next run's range starts `history` below the
@@ -35,7 +36,7 @@ func main() {
 		}
 	}
 	tr := traceroute.NewTraceroute()
-	res, err := tr.RunTraceroute(context.Background(), traceroute.TracerouteParams{Hostname: flag.Arg(0), Port: *port, Protocol: *proto, MinTTL: *min, MaxTTL: *max, Delay: 50,
+	res, err := tr.RunTraceroute(context.Background(), traceroute.TracerouteParams{Hostname: flag.Arg(0), Port: *port, Protocol: *proto, MinTTL: *min, MaxTTL: *max, Delay: *delay,
 		Timeout: time.Duration(*timeout) * time.Millisecond, TCPMethod: traceroute.TCPMethod(*method), TracerouteQueries: *q, E2eQueries: *e2e})
 	if err != nil {
 		fmt.Fprintln(os.Stderr, "error:", err)
